@@ -255,6 +255,11 @@ func unfoldAlias(c *simkit.Choices, x *simkit.Ctx) *simkit.Violation {
 		if f == model.UBJSON {
 			ms = append(ms, "parsereader")
 		}
+		if f != model.JSON {
+			// one document through TWO methods: the head through Write, the rest
+			// (and the end of the input) through Parse / ParseString
+			ms = append(ms, "write+parsestring", "write+parse")
+		}
 		for range docs {
 			sc.Methods = append(sc.Methods, ms[c.N(len(ms))])
 		}
@@ -415,6 +420,20 @@ func unfoldAlias(c *simkit.Choices, x *simkit.Ctx) *simkit.Violation {
 					scribble(buf)
 				case "parsestring":
 					runErr = pm.ParseString(string(d))
+				case "write+parsestring", "write+parse":
+					cut := len(d) / 2
+					if len(sc.Cuts[i]) > 0 {
+						cut = sc.Cuts[i][0]
+					}
+					if _, runErr = simkit.Feed(parser, d[:cut], nil, true, &x.Clock); runErr == nil {
+						if sc.Methods[i] == "write+parse" {
+							buf := simkit.Exact(d[cut:])
+							runErr = pm.Parse(buf)
+							scribble(buf)
+						} else {
+							runErr = pm.ParseString(string(d[cut:]))
+						}
+					}
 				default:
 					buf := simkit.Exact(d)
 					_, runErr = parser.(interface {
